@@ -283,7 +283,7 @@ def make_case(rng):
             plan = None
     return {"kind": "steady", "family": family, "spec": spec, "steady": steady, "meta": meta, "source": rr["source"], "context": rr["context"],
             "opts": opts, "plan": plan, "nvar": int(rng.choice([1, 1, 2, 3])), "guess_distance": float(rng.choice([0.0, 0.1, 0.5])),
-            "guess_seed": int(rng.integers(0, 10 ** 6))}
+            "guess_seed": int(rng.integers(0, 10 ** 6)), "stale_changes": bool(rng.random() < 0.3), "solve_twice": bool(rng.random() < 0.25)}
 
 
 def run_case(c, case):
@@ -329,6 +329,10 @@ def run_case(c, case):
                 if family == "G" and n not in (case.get("plan") or {}).get("fix_change", []) and case["guess_distance"] > 0:
                     # perturb the growth-rate guess as well (a missing write-back of changes must be visible)
                     chg = chg * (1 + 0.02 * g.uniform(-1, 1)) if spec_is_log(spec, n) else chg + 0.05 * g.uniform(-1, 1)
+                if family == "N" and case.get("stale_changes") and spec["flags"].get("flat", False):
+                    # history of the variant: a non-flat change is already stored when the flat solve starts (left over from a
+                    # growth-mode solve or assigned with the starting values); the flat solve has to reset it
+                    chg = float(np.round(1 + 0.05 * g.uniform(0.2, 1), 4)) if spec_is_log(spec, n) else float(np.round(0.3 * g.uniform(0.2, 1), 4))
                 guess[n] = (base, chg)
             m.assign(**guess)
         plan = None
@@ -349,6 +353,9 @@ def run_case(c, case):
                 kw["plan"] = plan
             with rt.quiet():
                 m.solve_steady(return_info=True, **kw)
+                if case.get("solve_twice"):
+                    # the solution is the starting point of a second solve on the same object (monitored like the first)
+                    m.solve_steady(return_info=True, **kw)
         except Exception as exc:
             c.inconc(f"solve_steady:raised:{type(exc).__name__}")
         finally:
